@@ -4,6 +4,7 @@ import Secp.Proofs.ScalarApiTiesTests
 import Secp.Proofs.ElementApiTies
 import Secp.Proofs.ElementApiTiesEq
 import Secp.Proofs.ElementApiTiesConstr
+import Secp.Proofs.DecodeTies
 /-!
 # C10 — any history of element and scalar operations matches the abstract group model
 
@@ -73,6 +74,11 @@ theorem element_steps_tied {α : Type} (F : FieldOps α) (e : Pt α) (v : Option
     GenElementAPI.set F w = w ∧ GenElementAPI.copy F w = w ∧ GenElementAPI.equal_e_v F e w = Hand.Element.equal F e w ∧
     GenElementAPI.isIdentity F e = Hand.Element.isIdentity F e :=
   ⟨ElementApiTies.add_tie F e v, rfl, rfl, rfl, ElementApiTies.subtract_tie F e v, rfl, rfl, rfl, rfl, rfl⟩
+
+/-- the decoding step of the concrete machine is the regenerated `Decode` of `element.go` -/
+theorem decode_step_tied (e : Pt L4) (data : Bytes) :
+    GenDecode.decode DecodeTies.limbBytes Hand.limbOps e data = DecodeTies.shape (Hand.ElementL.decode e data) :=
+  DecodeTies.decode_tie e data
 
 /-- non-vacuity: the initial state satisfies the invariant and abstracts to the initial abstract state; all operations
 used by the generators are well-formed -/
